@@ -30,6 +30,14 @@ Results corpus (every document is run through the extractor the router selects f
           svg:width / svg:height), 14 integer lexemes (docx pptx xlsx: cx / cy extents; rtf: the picw pich picwgoal pichgoal keywords).
           quick: every kind x {natural size, (zero, zero)} and the PNG with (l, ok), (ok, l), (l, l) for every lexeme l;
           thorough: every kind x those pair forms, and the PNG with every (w, h) of lexemes x lexemes;
+  (lab)   the PICTURE-LABEL family (verif.props.c04_pics), 8 formats whose pictures carry label slots (the texts behind get_caption() /
+          get_description()): odt odp odg ods (svg:title and svg:desc elements, draw:name attribute; odt also the caption paragraph of
+          an enclosing text-box frame), docx pptx xlsx (title, descr, name attributes of the non-visual properties), epub (title, alt
+          attributes): the document [paragraph, PNG picture] with every slot in one of its states - element slot: absent, empty
+          element, white space, text, non-BMP/RTL/markup text, two lines, comment only, CDATA; attribute slot: natural, absent, "",
+          white space, text, non-BMP/RTL/markup text, &#10;; caption paragraph: none, picture only, text, non-BMP/RTL/markup, with a
+          text:sequence number.  quick: every pair of slots x every pair of their states (the other slots natural);
+          thorough: the full product of the slots' states;
   (cs)    the CHARACTER-ENCODING family (verif.props.c04_charsets): html, mhtml with each of 27 declared charset labels (standard
           ones, 7-bit transfer forms, Python-specific codec names, non-text codecs, unknown, empty) x the ways a label reaches the
           reader (meta charset, meta http-equiv, byte-order mark; MIME part parameter), plain text (txt; thorough: md csv json) with
@@ -41,7 +49,7 @@ Results corpus (every document is run through the extractor the router selects f
 x path arguments {None, "a.ext", "dir/a.ext", "/abs/none/a.ext", an existing temp file, "ü ä.ext", "arch.zip!/d/a.ext",
   "", "."}  (mutants that are rejected with path None are not re-run with the other eight; fixture mutants: None only;
   quick: generated mutants with None, the temp file and the unicode name only; pic and cs families: None and the unicode name -
-  the path does not reach pictures or decoders; doclines: None).
+  the path does not reach pictures or decoders; lab: None, thorough also the unicode name; doclines: None).
 
 On every result, and every unit / image / table reachable from it (iterate_units / iterate_images / iterate_tables,
 unit.get_images / unit.get_tables), the accessor alphabet - discovered by reflection from the Protocol classes
@@ -50,7 +58,8 @@ argument - is called: each accessor once, then all ordered pairs (a, b) on the s
 iterators exhausted, streams read to the end), and b's return value is judged again.
 
 A case is plain JSON: {"body": [...], "meta": {key: [value features]}, "mut": null | [kind, ...], "path": kind}
-(fmt = format; picture family: + "pic": {"kind", "w", "h", "uid2"} with only the non-default components, body ["text", "img"];
+(fmt = format; picture and picture-label families: + "pic": {"kind", "w", "h", "uid2", "title", "desc", "name", "cap"} with only the
+non-default components, body ["text", "img"];
 encoding family: + "cs": {"label", "form"}, body ["text"]) or {"file": fixture, "mut": ..., "path": kind}
 (fmt = "fix-<extractor the router selects>"; line recombination: + "lines": [indices]).
 
@@ -572,9 +581,9 @@ def shrinks(case):
                 yield dict(case, cs=dict(cs, **{k: dflt[k]}))
         return
     if case.get("pic") is not None:
-        # towards the ordinary picture: each component of the description back to its default (PNG, natural size, one UID)
+        # towards the ordinary picture: each component of the description back to its default (PNG, natural size, one UID, natural labels)
         pic = case["pic"]
-        for k in ("uid2", "h", "w", "kind"):
+        for k in ("uid2", "h", "w", "kind") + PX.LAB_SLOTS:
             if k in pic and pic[k] != PX.DEFAULT[k]:
                 yield dict(case, pic={a: b for a, b in pic.items() if a != k})
         return
@@ -719,6 +728,8 @@ def documents(tier):
             out.append((fmt, small_case(fmt, mut), "mut", True))
         for pic in PX.cases(tier, fmt):
             out.append((fmt, {"body": list(PIC_BODY), "meta": {}, "mut": None, "pic": pic}, "pic", PIC_PATHS))
+        for pic in PX.label_cases(tier, fmt):
+            out.append((fmt, {"body": list(PIC_BODY), "meta": {}, "mut": None, "pic": pic}, "lab", ["none"] if tier == "quick" else PIC_PATHS))
         for cs in CS.cases(tier, fmt):
             out.append((fmt, {"body": list(CS.CS_BODY), "meta": {}, "mut": None, "cs": cs}, "cs", PIC_PATHS))
     for rel in fixture_files():
@@ -834,6 +845,8 @@ def run(ctx):
            "bounds": {"picture_kinds": list(PX.KINDS), "picture_formats": list(PX.PIC_FORMATS),
                       "size_lexemes_odf": sorted(PX.LEN), "size_lexemes_int": sorted(PX.INT),
                       "size_pairs": "quick: kind x {natural, (zero, zero)} + png x {(l, ok), (ok, l), (l, l)}; thorough: kind x pair forms + png x all pairs",
+                      "label_formats": list(PX.LAB_FORMATS), "label_slots": {f: PX.labels_of(f) for f in PX.LAB_FORMATS},
+                      "label_combinations": "quick: every pair of slots x every pair of their states; thorough: full product of the slots' states",
                       "charset_labels": sorted(CS.LABELS), "charset_forms": {"html": list(CS.HTML_FORMS), "mhtml": list(CS.MHTML_FORMS),
                                                                               "plain": sorted(CS.SIGS)},
                       "position_modifiers": sorted(K.UNI_POS), "doc_lines": DT.MAX_LINES,
@@ -842,7 +855,7 @@ def run(ctx):
                    "every single-deviation byte mutation (16 truncations, 64 offsets x XOR {0xFF, 0x01, 0x20}, 3 parts x 64 offsets x XOR "
                    "{0x01, 0x20} inside ZIP packages; quick: every 2nd / 4th, no 0x20, one part) of the small document per format (thorough: also of "
                    "every fixture, quick: of the .doc/.msg fixtures) x 9 path arguments; plus the picture family (payload kind x frame size "
-                   "lexemes, 11 formats), the character-encoding family (charset label x declaration form; html, mhtml, plain text) and the "
+                   "lexemes, 11 formats), the picture-label family (states of the title / description / name / caption slots, 8 formats), the character-encoding family (charset label x declaration form; html, mhtml, plain text) and the "
                    ".doc line-recombination family (see bounds; 2 resp. 1 path arguments); on every result / unit / image / table "
                    "each accessor of the reflected alphabet once and then all ordered pairs; evaluations = (document, path) "
                    "extractions; distinct_nontrivial = distinct (result classes, #results, #units, #images, #tables, failing "
